@@ -177,4 +177,261 @@ Section GS.
       unfold Omen.find_cp. destruct (top <? 0)%Z; [reflexivity|]. apply scan_down_none.
       apply cp_absent. rewrite (dmem_dfind ostr_eqb), Em. reflexivity.
   Qed.
+  (* ---------------------------------------------------------------- *)
+  (* _fill_out_parse_tree                                              *)
+
+  (* the store at the end of a search (only for length <= max_length) *)
+  Definition upd (k : nat) (p : ostr) (lvl : Z) (c : cache) (r : option tree) : cache :=
+    if Nat.leb k optmax then cupdate c (k, p, lvl) r else c.
+
+  (* iterations left in `while cur_level >= 0` at cur_level = t *)
+  Definition mu (t : Z) : nat := if (t <? 0)%Z then 0 else S (Nat.min (Z.to_nat t) maxl).
+
+  Lemma scan_down_none_inv p n : scan_down cpf p n 0 = None -> forall L, L <= n -> cpf p L = [].
+  Proof.
+    induction n as [|n IH]; cbn [scan_down]; intros H L HL.
+    - replace (Z.of_nat 0 <? 0)%Z with false in H by reflexivity.
+      destruct (cpf p 0) eqn:E; [|discriminate]. now replace L with 0 by lia.
+    - replace (Z.of_nat (S n) <? 0)%Z with false in H by (symmetry; apply Z.ltb_ge; lia).
+      destruct (cpf p (S n)) eqn:E; [|discriminate]. cbn [is_nil negb] in H.
+      destruct (Nat.eq_dec L (S n)); [now subst | apply IH; [exact H | lia]].
+  Qed.
+
+  Lemma find_cp_none_levels p t : find_cp p t 0 = None -> forall L, In L (levels_down maxl t) -> cpf p L = [].
+  Proof.
+    unfold Omen.find_cp, levels_down. destruct (t <? 0)%Z; intros H L HL; [contradiction|].
+    apply in_down_from in HL. exact (scan_down_none_inv _ _ H L HL).
+  Qed.
+
+  Lemma down_from_lower L : down_from L = L :: lower L.
+  Proof. destruct L; reflexivity. Qed.
+
+  Lemma first_st_down_from_skip {St R} (F : St -> nat -> option R * St) c n L : L <= n ->
+    (forall L' c, L < L' <= n -> F c L' = (None, c)) ->
+    first_st F c (down_from n) = first_st F c (L :: lower L).
+  Proof.
+    intros HL Hskip. induction n as [|n IH].
+    - replace L with 0 by lia. reflexivity.
+    - destruct (Nat.eq_dec L (S n)) as [->|Hne]; [now rewrite down_from_lower|].
+      cbn [down_from first_st]. rewrite Hskip by lia. apply IH; [lia|]. intros L' c' HL'. apply Hskip. lia.
+  Qed.
+
+  Lemma levels_down_pred L : L <= maxl -> levels_down maxl (Z.of_nat L - 1) = lower L.
+  Proof.
+    intro H. unfold levels_down. destruct L as [|m].
+    - reflexivity.
+    - replace (Z.of_nat (S m) - 1 <? 0)%Z with false by (symmetry; apply Z.ltb_ge; lia).
+      replace (Nat.min (Z.to_nat (Z.of_nat (S m) - 1)) maxl) with m by lia. reflexivity.
+  Qed.
+
+  Lemma fill_inner_loop {R : Type} (found : option pytree * pyopt -> R)
+        (G : cache -> nat * N -> option tree * cache) (updf : cache -> option tree -> cache)
+        (cs : list N)
+        (cond : pyopt * Z -> res bool) (body : pyopt * Z -> res (lctl R (pyopt * Z))) (kont : pyopt * Z -> res R) :
+    (forall o i, cond (o, i) = Ok (i <? zlen cs)%Z) ->
+    (forall o c i ch, crel optmax o c -> nth_error cs i = Some ch ->
+        exists o', crel optmax o' (match fst (G c (i, ch)) with
+                                   | Some _ => updf (snd (G c (i, ch))) (fst (G c (i, ch)))
+                                   | None => snd (G c (i, ch)) end) /\
+                   body (o, Z.of_nat i) = Ok (match fst (G c (i, ch)) with
+                                             | Some t => Return (found (Some (tree_py t), o'))
+                                             | None => Continue (o', Z.of_nat (S i)) end)) ->
+    forall fuel i o c, fuel > length cs - i -> i <= length cs -> crel optmax o c ->
+      exists o', crel optmax o' (match fst (first_st G c (skipn i (indexed cs))) with
+                                 | Some _ => updf (snd (first_st G c (skipn i (indexed cs)))) (fst (first_st G c (skipn i (indexed cs))))
+                                 | None => snd (first_st G c (skipn i (indexed cs))) end) /\
+                 mwhile fuel cond body (o, Z.of_nat i) kont =
+                 match fst (first_st G c (skipn i (indexed cs))) with
+                 | Some t => Ok (found (Some (tree_py t), o'))
+                 | None => kont (o', zlen cs)
+                 end.
+  Proof.
+    intros Hcond Hbody. induction fuel as [|f IH]; intros i o c Hf Hi Hrel; [lia|].
+    cbn [mwhile]. rewrite Hcond. unfold zlen.
+    destruct (Z.of_nat i <? Z.of_nat (length cs))%Z eqn:E.
+    - apply Z.ltb_lt in E. assert (i < length cs) as Hlt by lia.
+      destruct (nth_error cs i) as [ch|] eqn:En; [|apply nth_error_None in En; lia].
+      rewrite (skipn_indexed_cons _ _ _ En). cbn [first_st].
+      destruct (Hbody o c i ch Hrel En) as (o1 & Hrel1 & Hb). rewrite Hb.
+      destruct (G c (i, ch)) as [[t|] c3]; cbn [fst snd] in *.
+      + exists o1. split; [exact Hrel1 | reflexivity].
+      + apply IH; [lia | lia | exact Hrel1].
+    - apply Z.ltb_ge in E. assert (i = length cs) as -> by lia.
+      rewrite skipn_indexed_all. cbn [first_st fst snd]. exists o. split; [exact Hrel | reflexivity].
+  Qed.
+
+  Lemma fill_outer_loop (p : ostr) (F : cache -> nat -> option tree * cache) (updf : cache -> option tree -> cache)
+        (cond : pyopt * Z -> res bool) (body : pyopt * Z -> res (lctl (option pytree * pyopt) (pyopt * Z)))
+        (kont : pyopt * Z -> res (option pytree * pyopt)) :
+    (forall c L, cpf p L = [] -> F c L = (None, c)) ->
+    (forall o t, cond (o, t) = Ok (0 <=? t)%Z) ->
+    (forall o c t, crel optmax o c ->
+        match find_cp p t 0 with
+        | None => exists o', crel optmax o' (updf c None) /\ body (o, t) = Ok (Return (None, o'))
+        | Some L => exists o', crel optmax o' (match fst (F c L) with
+                                               | Some _ => updf (snd (F c L)) (fst (F c L))
+                                               | None => snd (F c L) end) /\
+                    body (o, t) = Ok (match fst (F c L) with
+                                      | Some tr => Return (Some (tree_py tr), o')
+                                      | None => Continue (o', (Z.of_nat L - 1)%Z) end)
+        end) ->
+    (forall o c t, crel optmax o c -> exists o', crel optmax o' (updf c None) /\ kont (o, t) = Ok (None, o')) ->
+    forall fuel t o c, fuel > mu t -> crel optmax o c ->
+      exists o', crel optmax o' (updf (snd (first_st F c (levels_down maxl t))) (fst (first_st F c (levels_down maxl t)))) /\
+                 mwhile fuel cond body (o, t) kont = Ok (otree_py (fst (first_st F c (levels_down maxl t))), o').
+  Proof.
+    intros Hempty Hcond Hbody Hkont. induction fuel as [|f IH]; intros t o c Hf Hrel; [lia|].
+    cbn [mwhile]. rewrite Hcond. unfold mu in Hf.
+    destruct (0 <=? t)%Z eqn:E.
+    - apply Z.leb_le in E. replace (t <? 0)%Z with false in Hf by (symmetry; apply Z.ltb_ge; lia).
+      specialize (Hbody o c t Hrel). destruct (find_cp p t 0) as [L|] eqn:Efc.
+      + destruct Hbody as (o1 & Hrel1 & Hb). rewrite Hb.
+        apply find_cp_spec in Efc. destruct Efc as (H1 & H2 & H3 & H4 & H5).
+        assert (levels_down maxl t = down_from (Nat.min (Z.to_nat t) maxl)) as Elv.
+        { unfold levels_down. now replace (t <? 0)%Z with false by (symmetry; apply Z.ltb_ge; lia). }
+        rewrite Elv. rewrite (first_st_down_from_skip F c _ L) by
+          (try lia; intros L' c' HL'; apply Hempty; apply H5; lia).
+        cbn [first_st]. destruct (F c L) as [[tr|] c1]; cbn [fst snd] in *.
+        * exists o1. split; [exact Hrel1 | reflexivity].
+        * rewrite <- (levels_down_pred L H2). apply IH; [|exact Hrel1].
+          unfold mu. destruct (Z.of_nat L - 1 <? 0)%Z eqn:E2; [lia|]. apply Z.ltb_ge in E2. lia.
+      + destruct Hbody as (o1 & Hrel1 & Hb). rewrite Hb.
+        rewrite first_st_all_none by (intros c' L HL; apply Hempty; exact (find_cp_none_levels _ _ Efc L HL)).
+        cbn [fst snd otree_py option_map]. exists o1. split; [exact Hrel1 | reflexivity].
+    - apply Z.leb_gt in E. unfold levels_down. replace (t <? 0)%Z with true by (symmetry; apply Z.ltb_lt; lia).
+      cbn [first_st fst snd otree_py option_map]. exact (Hkont o c t Hrel).
+  Qed.
+
+  Ltac feed H := match type of H with ?A -> _ => let Hx := fresh in assert A as Hx; [ | specialize (H Hx); clear Hx ] end.
+
+  Definition fill_fuel (k : nat) : nat := k + maxl + cp_maxlen cp + 3.
+
+  (* one candidate of the search: ip[1:] + c, the recursive fill, the row put in front *)
+  Definition fill_G (k' : nat) (p : ostr) (lvl : Z) (L : nat) (c2 : cache) (ic : nat * N) : option tree * cache :=
+    let '(r2, c3) := fill k' c2 (shift p (snd ic)) (lvl - Z.of_nat L) in
+    (option_map (cons (p, L, fst ic)) r2, c3).
+  Definition fill_F (k' : nat) (p : ostr) (lvl : Z) (c1 : cache) (L : nat) : option tree * cache :=
+    first_st (fill_G k' p lvl L) c1 (indexed (cpf p L)).
+
+  Lemma fill_SS k'' c p lvl :
+    fill (S (S k'')) c p lvl =
+    match (if Nat.leb (S (S k'')) optmax then clookup c (S (S k''), p, lvl) else None) with
+    | Some r => (r, c)
+    | None => (fst (first_st (fill_F (S k'') p lvl) c (levels_down maxl lvl)),
+               upd (S (S k'')) p lvl (snd (first_st (fill_F (S k'') p lvl) c (levels_down maxl lvl)))
+                   (fst (first_st (fill_F (S k'') p lvl) c (levels_down maxl lvl))))
+    end.
+  Proof.
+    cbn [Omen.fill]. destruct (if Nat.leb (S (S k'')) optmax then clookup c (S (S k''), p, lvl) else None); [reflexivity|].
+    unfold fill_F, fill_G, upd.
+    destruct (first_st _ c (levels_down maxl lvl)) as [r c']. reflexivity.
+  Qed.
+
+  (* `if length <= self.optimizer.max_length: self.optimizer.update(ip, length, level, v)` *)
+  Lemma maybe_update f o c k p lvl v : crel optmax o c -> v <> Some [] ->
+    exists o', crel optmax o' (upd k p lvl c v) /\
+      (if (Z.of_nat k <=? o_max_length o)%Z
+       then '(_, o2) <- py_opt_update f o p (Z.of_nat k) lvl (otree_py v) ;; Ok o2
+       else Ok o) = Ok o'.
+  Proof.
+    intros Hrel Hv. pose proof Hrel as (Hm & _). rewrite Hm. unfold upd.
+    destruct (Nat.leb k optmax) eqn:E.
+    - apply Nat.leb_le in E. replace (Z.of_nat k <=? Z.of_nat optmax)%Z with true by (symmetry; apply Z.leb_le; lia).
+      destruct (gen_opt_update f optmax o c k p lvl v Hrel E Hv) as (o' & E' & Hrel').
+      exists o'. split; [exact Hrel'|]. now rewrite E'.
+    - apply Nat.leb_gt in E. replace (Z.of_nat k <=? Z.of_nat optmax)%Z with false by (symmetry; apply Z.leb_gt; lia).
+      exists o. split; [exact Hrel | reflexivity].
+  Qed.
+
+  Theorem gen_fill self : gs_ok self -> forall k fuel o c p lvl,
+    1 <= k -> crel optmax o c -> fuel >= fill_fuel k ->
+    exists o', py_gs_fill_out_parse_tree fuel self o p (Z.of_nat k) lvl = Ok (otree_py (fst (fill k c p lvl)), o') /\
+               crel optmax o' (snd (fill k c p lvl)).
+  Proof.
+    intros Hok. induction k as [|k' IH]; intros fuel o c p lvl Hk Hrel Hfuel; [lia|].
+    unfold fill_fuel in Hfuel. destruct fuel as [|f]; [lia|].
+    cbn [py_gs_fill_out_parse_tree].
+    destruct k' as [|k''].
+    - (* length == 1 *)
+      replace (Z.of_nat 1 =? 1)%Z with true by reflexivity.
+      rewrite (gen_find_cp f self p lvl lvl Hok) by lia. cbn [bind Omen.fill].
+      destruct (find_cp p lvl lvl) as [L|]; cbn [fcp_py option_map fst snd otree_py tree_py map row_py row_prefix row_level row_index].
+      + exists o. split; [reflexivity | exact Hrel].
+      + exists o. split; [reflexivity | exact Hrel].
+    - replace (Z.of_nat (S (S k'')) =? 1)%Z with false by (symmetry; apply Z.eqb_neq; lia).
+      rewrite fill_SS. set (K := S (S k'')) in *.
+      set (rc := first_st (fill_F (S k'') p lvl) c (levels_down maxl lvl)).
+      match goal with |- context[mblock _ ?k] => set (kfun := k) end.
+      (* the search proper *)
+      assert (Hloop : exists o', kfun tt = Ok (otree_py (fst rc), o') /\ crel optmax o' (upd K p lvl (snd rc) (fst rc))).
+      { subst kfun. cbv beta.
+        match goal with |- context[mwhile ?fu ?cond ?body (o, lvl) ?kont] =>
+          pose proof (fill_outer_loop p (fill_F (S k'') p lvl) (upd K p lvl) cond body kont) as HL end.
+        feed HL.
+        { intros c0 L E. unfold fill_F. now rewrite E. }
+        feed HL.
+        { intros o0 t. reflexivity. }
+        feed HL.
+        { (* one iteration of `while cur_level >= 0` *)
+          intros o1 c1 t Hrel1. cbv beta iota.
+          rewrite (gen_find_cp f self p t 0 Hok) by lia.
+          destruct (find_cp p t 0) as [L|] eqn:Efc; cbn [fcp_py option_map bind].
+          - (* the levels of cp_index: `while cur_index < top_index` *)
+            match goal with |- context[mwhile ?fu ?cond ?body (o1, 0%Z) ?kont] =>
+              pose proof (fill_inner_loop (@Return (option pytree * pyopt) (pyopt * Z)) (fill_G (S k'') p lvl L) (upd K p lvl)
+                                          (cpf p L) cond body kont) as HI end.
+            feed HI.
+            { intros o0 i. reflexivity. }
+            feed HI.
+            { intros o2 c2 i ch Hrel2 Hnth. cbv beta iota.
+              rewrite (pyindex_nat _ _ _ Hnth). cbn [bind]. rewrite pyslice_tl.
+              replace (Z.of_nat K - 1)%Z with (Z.of_nat (S k'')) by (subst K; lia).
+              destruct (IH f o2 c2 (shift p ch) (lvl - Z.of_nat L)%Z ltac:(lia) Hrel2 ltac:(unfold fill_fuel; subst K; lia))
+                as (o3 & E3 & Hrel3).
+              unfold shift in E3 at 1. rewrite E3. cbn [bind]. unfold fill_G. cbn [snd fst].
+              destruct (fill (S k'') c2 (shift p ch) (lvl - Z.of_nat L)) as [[tr|] c3]; cbn [fst snd otree_py option_map] in *.
+              - destruct (maybe_update f o3 c3 K p lvl (Some ((p, L, i) :: tr)) Hrel3 ltac:(discriminate)) as (o4 & Hrel4 & E4).
+                exists o4. split; [exact Hrel4|].
+                match goal with |- bind ?X _ = _ => replace X with (Ok o4) by (symmetry; exact E4) end.
+                reflexivity.
+              - exists o3. split; [exact Hrel3|]. do 3 f_equal. lia. }
+            destruct (HI (S f) 0 o1 c1) as (o5 & Hrel5 & E5).
+            { pose proof (cpf_of_length cp p L). lia. }
+            { lia. }
+            { exact Hrel1. }
+            cbn [skipn] in *. change (Z.of_nat 0) with 0%Z in E5.
+            exists o5. split; [exact Hrel5|].
+            match goal with |- ?X = _ => replace X with
+              (match fst (fill_F (S k'') p lvl c1 L) with
+               | Some t0 => Ok (Return (Some (tree_py t0), o5))
+               | None => Ok (Continue (o5, (Z.of_nat L - 1)%Z)) end) by (symmetry; exact E5) end.
+            destruct (fst (fill_F (S k'') p lvl c1 L)); reflexivity.
+          - destruct (maybe_update f o1 c1 K p lvl None Hrel1 ltac:(discriminate)) as (o4 & Hrel4 & E4).
+            exists o4. split; [exact Hrel4|].
+            match goal with |- bind ?X _ = _ => replace X with (Ok o4) by (symmetry; exact E4) end.
+            reflexivity. }
+        feed HL.
+        { intros o1 c1 t Hrel1. cbv beta iota.
+          destruct (maybe_update f o1 c1 K p lvl None Hrel1 ltac:(discriminate)) as (o4 & Hrel4 & E4).
+          exists o4. split; [exact Hrel4|].
+          match goal with |- bind ?X _ = _ => replace X with (Ok o4) by (symmetry; exact E4) end.
+          reflexivity. }
+        destruct (HL (S f) lvl o c) as (o' & Hrel' & E').
+        { unfold mu. destruct (lvl <? 0)%Z; lia. }
+        { exact Hrel. }
+        exists o'. split; [exact E' | exact Hrel']. }
+      destruct Hloop as (o' & Eloop & Hrel').
+      pose proof Hrel as (Hm & _). rewrite Hm.
+      destruct (Nat.leb K optmax) eqn:Eopt.
+      + apply Nat.leb_le in Eopt.
+        replace (Z.of_nat K <=? Z.of_nat optmax)%Z with true by (symmetry; apply Z.leb_le; lia).
+        rewrite (gen_opt_lookup f optmax o c K p lvl Hrel Eopt). cbn [bind].
+        destruct (clookup c (K, p, lvl)) as [v|]; cbn [mblock fst snd].
+        * exists o. split; [reflexivity | exact Hrel].
+        * exists o'. split; [exact Eloop | exact Hrel'].
+      + apply Nat.leb_gt in Eopt.
+        replace (Z.of_nat K <=? Z.of_nat optmax)%Z with false by (symmetry; apply Z.leb_gt; lia).
+        cbn [mblock fst snd]. exists o'. split; [exact Eloop | exact Hrel'].
+  Qed.
+
 End GS.
